@@ -13,16 +13,16 @@ CONDS = [
          'iframe = document boundary)',
          '300/3000 seeded random forms documents (nested forms, fieldsets/legends, optgroups, 26 input type spellings, all '
          'state attributes, bidi text, iframes) + the forms document from html.parser / lxml / html5lib',
-         timeout={'quick': 110, 'thorough': 1800}, parts={'quick': 8, 'thorough': 16}),
+         timeout={'quick': 110, 'thorough': 900}, parts={'quick': 8, 'thorough': 16}),
     Cond('sym_type_ok', 'compact forms document, first input type / placeholder / value symbolic: :placeholder-shown == '
          'reference, :read-write/:read-only partition, no range state without bounds',
-         'len(type) <= 2, len(placeholder), len(value) <= 1, all of Unicode', timeout={'quick': 110, 'thorough': 1800},
+         'len(type) <= 2, len(placeholder), len(value) <= 1, all of Unicode', timeout={'quick': 110, 'thorough': 900},
          path_timeout=40),
     Cond('sym_radio_ok', 'radio name / checkedness and the submit input type suffix symbolic: :indeterminate and :default == '
-         'reference, :checked subset of :default', 'len(name), len(suffix) <= 1', timeout={'quick': 110, 'thorough': 1800},
+         'reference, :checked subset of :default', 'len(name), len(suffix) <= 1', timeout={'quick': 110, 'thorough': 900},
          path_timeout=40),
     Cond('sym_dir_ok', '<p dir> and <html dir> symbolic: :dir(ltr) / :dir(rtl) partition all elements',
-         'len(dir) <= 4 / 3, all of Unicode', timeout={'quick': 110, 'thorough': 1800}, path_timeout=40),
+         'len(dir) <= 4 / 3, all of Unicode', timeout={'quick': 110, 'thorough': 900}, path_timeout=40),
 ]
 
 
